@@ -25,7 +25,9 @@ svars == <<epoch, hist, best, bestEpoch, since, stopped>>
 
 INF == 1000000
 
-SInit == /\ epoch = 0 /\ hist = <<>> /\ best = INF /\ bestEpoch = 0 /\ since = 0 /\ stopped = FALSE
+(* `stopped` after the call that precedes the first epoch (epoch 0, no loss yet): a patience condition cannot stop there; the *)
+(* epoch-count condition is already met when Epochs = 0 and hands back the model it was given                              *)
+SInit == /\ epoch = 0 /\ hist = <<>> /\ best = INF /\ bestEpoch = 0 /\ since = 0 /\ stopped = (Kind = "epochs" /\ Epochs <= 0)
 
 (* one call of stop(model_of_epoch, epoch, loss) after an epoch *)
 Observe(l) ==
